@@ -237,6 +237,14 @@ class Gen:
             return ''.join(r.choice(self.alphabet) for _ in range(r.choice([1, 2])))
         return r.choice(['zz', 'ab', 'aa', '-', ' ', '--', 'b'])
 
+    SETTING_ALPHABET = ['0', '1', '2', '3', '4', '5', '8', '9', ';', ';', ';', ':', '<', '=', '>', '?', '@', 'm', '~', 'A', '`', '[',
+                        ' ', '/', '\x7f', '38', '48', '58', '255', '256', '38;5', '38;2', '58;5;9', '48;2;1;2', '0', '00', '01', '22']
+
+    def setting_text(self):
+        r = self.rng
+        n = r.choice([1, 1, 2, 2, 3, 4, 5, 6])
+        return ''.join(r.choice(self.SETTING_ALPHABET) for _ in range(n))
+
     def ip(self):
         return self.rng.random() < self.p_inplace
 
@@ -253,6 +261,8 @@ class Gen:
             return self.g_bad(world)
         k = r.choices(self.kinds, self.weights)[0]
         op = getattr(self, 'g_' + k)(world)
+        if self.oracle.prop == 'C15' and r.random() < 0.5:
+            op['probe_settings'] = [self.setting_text() for _ in range(r.choice([1, 2, 3]))]
         if self.oracle.prop == 'C13' and r.random() < 0.5:
             # a format spec under which the twin results are compared as well
             op['twin_spec'] = ops.compose_spec(self.spec(r.randint(0, 8)))
